@@ -300,7 +300,8 @@ def opVecGen {α : Type} [CElem α] (cd : Codec α) (T : String) (op : String) (
   | "Add" => fmt (Gen.dispatch v [x, y] [n] [])
   | "AddScaled" => fmt (Gen.dispatch v [x, y] [n] [c])
   | "Sum" | "Max" | "Min" | "ArgMax" | "ArgMin" | "SortIncreasing" | "SortDecreasing" => fmt (Gen.dispatch v [x] [n] [])
-  | "Dot" | "Swap" => fmt (Gen.dispatch v [x, y] [n] [])
+  | "Dot" | "Swap" | "Compare" => fmt (Gen.dispatch v [x, y] [n] [])
+  | "MatCompare" => if M = 0 then some "bad-op" else fmt (Gen.dispatch ("esl_mat_" ++ T ++ "Compare") [x, y] [M, Int.tdiv n M] [])
   | "Copy" | "Reverse" => fmt (Gen.dispatch v [x, dest] [n] [])
   | "ReverseInPlace" => fmt (Gen.dispatch ("esl_vec_" ++ T ++ "Reverse_inplace") [x] [n] [])
   | "MatMax" => if M = 0 then some "bad-op" else fmt (Gen.dispatch ("esl_mat_" ++ T ++ "Max") [x] [M, Int.tdiv n M] [])
@@ -308,6 +309,23 @@ def opVecGen {α : Type} [CElem α] (cd : Codec α) (T : String) (op : String) (
   | "MatSet" => if M = 0 then some "bad-op" else fmt (Gen.dispatch ("esl_mat_" ++ T ++ "Set") [x] [M, Int.tdiv n M] [c])
   | "MatCopy" => if M = 0 then some "bad-op" else fmt (Gen.dispatch ("esl_mat_" ++ T ++ "Copy") [x, dest] [M, Int.tdiv n M] [])
   | _ => none
+
+/-- `esl_vec_{D,F}Compare`, `esl_mat_{D,F}Compare` as regenerated (they need the floating-point class `VCmp`, so they are not in the
+    generic `dispatch`) -/
+def opCompareF {α : Type} [VCmp α] (cd : Codec α) (isF mat : Bool) (ws : List String) : String :=
+  let x : Array α := ((chunks cd.width ((argHex? ws "x").getD [])).map cd.dec).toArray
+  let y : Array α := ((chunks cd.width ((argHex? ws "y").getD [])).map cd.dec).toArray
+  let len : Int := x.size
+  let n : Int := match argInt? ws "n" with | some k => if k < len && k ≥ 0 then k else len | none => len
+  let M : Int := ((argNat? ws "m").getD 1 : Nat)
+  let tol := cd.ofArg ws
+  if y.size != x.size || M = 0 then "bad-op" else
+  let r := match isF, mat with
+    | false, false => Gen.esl_vec_DCompare x y n tol
+    | true, false => Gen.esl_vec_FCompare x y n tol
+    | false, true => Gen.esl_mat_DCompare x y M (Int.tdiv n M) tol
+    | true, true => Gen.esl_mat_FCompare x y M (Int.tdiv n M) tol
+  match r with | some i => s!"ok {i}" | none => "fault"
 
 def opVec (ws : List String) : String :=
   match arg? ws "op" with
@@ -320,6 +338,8 @@ def opVec (ws : List String) : String :=
     let sbits := ((arg? ws "s").bind hexNat?).getD 0
     let m := (argNat? ws "m").getD 1
     let hasY := (arg? ws "y").isSome
+    if T == 'D' && (op == "Compare" || op == "MatCompare") then opCompareF codecD false (op == "MatCompare") ws else
+    if T == 'F' && (op == "Compare" || op == "MatCompare") then opCompareF codecF true (op == "MatCompare") ws else
     let gen : Option String := match T with
       | 'D' => opVecGen codecD "D" op ws
       | 'F' => opVecGen codecF "F" op ws
@@ -400,6 +420,26 @@ def opCmp (ws : List String) : String :=
   | 'L', false => sg (Gen.qsort_LDecreasing (UInt64.ofNat ua).toInt64 (UInt64.ofNat ub).toInt64)
   | _, _ => "bad-op"
 
+/-! ## esl_{D,F}Compare_old (easel.c; hand model `Vec.compareOld`) and the conversion routines -/
+def opCmpOld (ws : List String) : String :=
+  let ua := ((arg? ws "a").bind hexNat?).getD 0
+  let ub := ((arg? ws "b").bind hexNat?).getD 0
+  let us := ((arg? ws "s").bind hexNat?).getD 0
+  match arg? ws "op" with
+  | some "D" => s!"ok {compareOldStatus (Float.ofBits (UInt64.ofNat ua)) (Float.ofBits (UInt64.ofNat ub)) (Float.ofBits (UInt64.ofNat us))}"
+  | some "F" => s!"ok {compareOldStatus (Float32.ofBits (UInt32.ofNat ua)) (Float32.ofBits (UInt32.ofNat ub)) (Float32.ofBits (UInt32.ofNat us))}"
+  | _ => "bad-op"
+
+def opCvt (ws : List String) : String :=
+  let xb := (argHex? ws "x").getD []
+  let i32 (bs : List UInt8) : List Int32 := (chunks 4 bs).map fun c => (UInt32.ofNat (leNat c)).toInt32
+  match arg? ws "op" with
+  | some "D2F" => "ok " ++ hexOrDash (fbytes (d2f (doubles xb)))
+  | some "F2D" => "ok " ++ hexOrDash (dbytes (f2d (floats xb)))
+  | some "I2F" => "ok " ++ hexOrDash (fbytes (i2f (i32 xb)))
+  | some "I2D" => "ok " ++ hexOrDash (dbytes (i2d (i32 xb)))
+  | _ => "bad-op"
+
 def step (s : Unit) (line : String) : Unit × String :=
   let ws := words line
   match ws with
@@ -412,6 +452,8 @@ def step (s : Unit) (line : String) : Unit × String :=
   | "vec" :: _ => (s, opVec ws)
   | "mat" :: _ => (s, opMat ws)
   | "cmp" :: _ => (s, opCmp ws)
+  | "cmpold" :: _ => (s, opCmpOld ws)
+  | "cvt" :: _ => (s, opCvt ws)
   | _ => (s, "bad-op")
 
 def main : IO Unit := runDriver () step
